@@ -122,9 +122,9 @@ theorem seg_snd_mem (log : List Payload) (lo hi : Nat) (e : IEntry) (h : e ∈ s
 
 /-- `get_entries_range(lo..=hi)` is the segment `lo-1 .. hi` (for `lo ≥ 1`). -/
 theorem entriesFrom_eq_seg (log : List Payload) (lo hi : Nat) :
-    entriesFrom log (lo + 1) hi = seg log lo hi := by
+    entriesFrom log 0 (lo + 1) hi = seg log lo hi := by
   unfold entriesFrom seg
-  have : max (lo + 1) 1 = lo + 1 := by omega
+  have : max (lo + 1) (0 + 1) = lo + 1 := by omega
   simp only [this]
   have e : hi + 1 - (lo + 1) = hi - lo := by omega
   rw [e]
@@ -218,5 +218,46 @@ theorem dispatchedAfter_seg (log : List Payload) (sent : List Batch) (d e k : Na
     have hk0 : k ≠ 0 := by omega
     simp only [hk0, if_false]
     split <;> omega
+
+/-! ### Membership calls made by the `process_batch` loop -/
+
+/-- Config entries of a batch as (index, membership accepts it). -/
+def cfgOf (es : Batch) : List (Nat × Bool) :=
+  es.filterMap (fun e => match e.2 with | .config ok => some (e.1, ok) | _ => none)
+
+theorem cfgOf_append (a b : Batch) : cfgOf (a ++ b) = cfgOf a ++ cfgOf b := by
+  unfold cfgOf; exact List.filterMap_append
+
+/-- No failing config change in the fetched entries: membership is called for every Config entry, in order. -/
+theorem pb_fold_cfg (es : Batch) (a : PB) (hok : ∀ e ∈ es, e.2 ≠ Payload.config false) (ha : a.err = false) :
+    (es.foldl pbStep a).err = false ∧ (es.foldl pbStep a).cfg = a.cfg ++ cfgOf es := by
+  induction es generalizing a with
+  | nil => simp [cfgOf, ha]
+  | cons e es ih =>
+    rw [List.foldl_cons]
+    have he := hok e (by simp)
+    have hrest : ∀ x ∈ es, x.2 ≠ Payload.config false := fun x hx => hok x (List.mem_cons_of_mem _ hx)
+    have hstep : (pbStep a e).err = false ∧ (pbStep a e).cfg = a.cfg ++ cfgOf [e] := by
+      unfold pbStep cfgOf
+      split <;> simp_all
+    obtain ⟨h1, h2⟩ := ih (pbStep a e) hrest hstep.1
+    refine ⟨h1, ?_⟩
+    rw [h2, hstep.2, List.append_assoc, ← cfgOf_append]
+    rfl
+
+/-- After a failed config change the same `process_batch` call makes no further membership calls
+    (`if last_error.is_none() && …`): later Config entries of that call are sent to the state machine
+    (as no-ops) but never reach `Membership::apply_config_change`. -/
+theorem pb_fold_cfg_after_error (es : Batch) (a : PB) (ha : a.err = true) :
+    (es.foldl pbStep a).cfg = a.cfg ∧ (es.foldl pbStep a).err = true := by
+  induction es generalizing a with
+  | nil => exact ⟨rfl, ha⟩
+  | cons e es ih =>
+    rw [List.foldl_cons]
+    have hstep : (pbStep a e).cfg = a.cfg ∧ (pbStep a e).err = true := by
+      unfold pbStep
+      split <;> simp_all
+    obtain ⟨h1, h2⟩ := ih (pbStep a e) hstep.2
+    exact ⟨h1.trans hstep.1, h2⟩
 
 end DEngine.Apply
